@@ -427,9 +427,20 @@ def _chunks(w, h, per):
     return [[w, h, lo, min(total, lo + per)] for lo in range(0, total, per)]
 
 
+def _maxwidth_cases():
+    """The greatest width the decoder accepts (2^20 columns) and the widths next to it below: one and two rows of long
+    runs, coded with the 2560 make-up code repeated hundreds of times."""
+    for w in (1 << 20, (1 << 20) - 1):
+        half = w // 2
+        a = [0] * half + [1] * (w - half)
+        b = [0] * w
+        for pol, rows, align in (("horiz", [a], False), ("std", [b, a], True)):
+            yield make_case(rows, w, E.policy(pol, random.Random(w)), align, False, True, desc={"gen": "maxwidth", "w": w, "policy": pol})
+
+
 def plan(tier):
     q = tier == "quick"
-    specs = []
+    specs = [{"kind": "maxwidth"}]
     if q:
         small = []
         for w in range(1, 6):
@@ -483,6 +494,9 @@ def run_shard(spec, ctx):
             if res.failures or res.harness_errors:
                 break
         res.extra["enumerated_bitmaps_six_policies"] = n
+        return res
+    if k == "maxwidth":
+        enum_search(ctx, _maxwidth_cases(), run_case, res)
         return res
     if k == "runs":
         ns = spec["list"] if "list" in spec else range(spec["lo"], spec["hi"], spec["step"])
